@@ -4,8 +4,9 @@
                     spine is flattened on both sides with that text (matters for Like, whose text depends on `negate`)
     connector_sql   AND / OR: operands joined by ` OP `
     paren_sql       `(` this `)`
-    neg_sql         `-` this, with a space when the operand's text starts with `-`
-    not_sql         `NOT ` this          bitwisenot_sql `~` this
+    neg_sql         `-` this, with a space when the guard fires; the guard's SHAPE (text-based `this_sql[0] == "-"` vs
+                    node-based `isinstance(…, exp.Neg)` vs none) is extracted from the source per dialect (`Tables.negGuard`)
+    not_sql         `NOT ` this          bitwisenot_sql `~` this, same guard mechanism (`Tables.bnotGuard`)
     is_sql          binary(IS / IS NOT)   in_sql  `this IN (a, b)`   between_sql  `this BETWEEN low AND high`
     _like_sql       binary([NOT ]LIKE)    anonymous_sql  `NAME(a, b)`
   sqlglot inserts NO parentheses from precedence; grouping lives in explicit `Paren` nodes made by the parser.
@@ -60,6 +61,27 @@ def startsDash (tbl : Tables) : List Piece → Bool
   | .t k :: _ => (printTok tbl k).front == '-'
   | _ => false
 
+/-- `this_sql[:1] == "~"` on the pieces -/
+def startsTilde (tbl : Tables) : List Piece → Bool
+  | .t k :: _ => (printTok tbl k).front == '~'
+  | _ => false
+
+def isNeg : Expr → Bool
+  | .neg _ => true
+  | _ => false
+
+def isBnot : Expr → Bool
+  | .bnot _ => true
+  | _ => false
+
+/-- does the prefix-operator method separate itself from its operand? -/
+def guardSep (g : Guard) (textStarts sameNode : Bool) : Bool :=
+  match g with
+  | .text => textStarts
+  | .node => sameNode
+  | .none => false
+  | .unknown => false
+
 def likeOp (negate : Bool) : List Piece :=
   if negate then [.sp, kw "NOT" "NOT", .sp, kw "LIKE" "LIKE", .sp] else [.sp, kw "LIKE" "LIKE", .sp]
 
@@ -85,9 +107,13 @@ def genI (tbl : Tables) : Inh → Expr → List Piece
   | _, .bool b => if b then [kw "TRUE" "TRUE"] else [kw "FALSE" "FALSE"]
   | _, .col parts => colPieces parts
   | _, .paren e => kw "L_PAREN" "(" :: genI tbl none e ++ [kw "R_PAREN" ")"]
-  | _, .neg e => kw "DASH" "-" :: ((if startsDash tbl (genI tbl none e) then [.sp] else []) ++ genI tbl none e)
+  | _, .neg e =>
+      kw "DASH" "-" :: ((if guardSep tbl.negGuard (startsDash tbl (genI tbl none e)) (isNeg e) then [.sp] else [])
+        ++ genI tbl none e)
   | _, .not e => kw "NOT" "NOT" :: .sp :: genI tbl none e
-  | _, .bnot e => kw "TILDE" "~" :: genI tbl none e
+  | _, .bnot e =>
+      kw "TILDE" "~" :: ((if guardSep tbl.bnotGuard (startsTilde tbl (genI tbl none e)) (isBnot e) then [.sp] else [])
+        ++ genI tbl none e)
   | _, .bin cls l r => genI tbl none l ++ [.sp, .t (opTok tbl cls), .sp] ++ genI tbl none r
   | inh, .isNull n e =>
       genI tbl (some (false, inhOp inh false (isOp n))) e ++ inhOp inh false (isOp n) ++ [kw "NULL" "NULL"]
